@@ -29,9 +29,7 @@ where
 
             level = line_level;
 
-            if self.ptr == self.length {
-                break;
-            } else if self.is_eol() {
+            if self.is_eol() {
                 content.push(self.get_comment_line());
             } else {
                 if let Err(e) = self.expect_byte(b' ') {
